@@ -14,7 +14,7 @@ STATEMENTS = ['2001 Foo Bar', '2001-2003, 2005 Foo <f@x.org>', 'Foo Bar', '(C) 2
 PATTERNS = ['*', 'src/*', 'debian/*', 'a.c', 'doc/*.txt', 'x?y']
 NAMES = ['GPL-2+', 'MIT', 'Apache-2.0', 'GPL-2+ with OpenSSL exception', 'public-domain', 'BSD-3-clause or GPL-2', 'GPL-2+   with   OpenSSL exception', 'GPL-2+  or  MIT', 'MIT ,', 'a\tb']
 FORMATS = ['https://www.debian.org/doc/packaging-manuals/copyright-format/1.0/', 'http://www.debian.org/doc/packaging-manuals/copyright-format/1.0/']
-EXTRA_LABELS = ['X-Foo', 'Origin', 'Bug-Debian', 'note']
+EXTRA_LABELS = ['X-Foo', 'Origin', 'Bug-Debian', 'note', 'X-Debian--Note', 'Trailing-', 'a--b-', 'X-SHA1-sum', 'md5sum']
 
 
 def case_label(rng, label):
